@@ -73,6 +73,23 @@ def c09_cases(rng, tier):
                         prep.append(st)
                 stmt = ("apply", name.upper() if upper else name, [("r", "q")], [])
                 cs.append({"chunks": [decl + prep + [stmt]], "seed": 1, "kind": name + "/reg", "stmt": stmt, "prep": decl + prep})
+    # the same under one and two controls: the target a whole register of 2..5 qubits, or several single qubits
+    # (x y z h only: the controlled forms of s / t are fixed by qelib1 only up to a phase, see DESIGN 0.5)
+    for name in ("x", "y", "z", "h"):
+        for size in ((2, 3, 4) if tier == "quick" else (2, 3, 4, 5)):
+            for nc in (1, 2):
+                decl = [("qreg", "a", 2), ("qreg", "q", size), ("creg", "c", 1)]
+                lay = qa.Layout(); lay.q = [("a", 2), ("q", size)]
+                prep = [("apply", "h", [("r", "q")], []), ("apply", "h", [("r", "a")], [])]
+                for _ in range(rng.randint(2, 5)):
+                    st = qa.gen_gate_stmt(rng, lay, depth=1, allow_user=False, allow_ctrl=False)
+                    if st:
+                        prep.append(st)
+                ctrls = [("q", "a", i) for i in range(nc)]
+                targets = [("r", "q")] if rng.random() < 0.6 else [("q", "q", i) for i in sorted(rng.sample(range(size), max(2, size - 1)))]
+                nm = "c" * nc + name
+                stmt = ("apply", nm.upper() if rng.random() < 0.3 else nm, ctrls + targets, [])
+                cs.append({"chunks": [decl + prep + [stmt]], "seed": 1, "kind": nm + "/reg", "stmt": stmt, "prep": decl + prep})
     return cs
 
 
@@ -108,6 +125,21 @@ def c11_cases(rng, tier):
         nodes, lay = qa.gen_program(rng, nstmts=rng.randint(6, 30), max_q=5, measure_p=0.2, if_p=0.2, reset_p=0.12,
                                     gate_defs=1, depth=2)
         cs.append({"chunks": [nodes], "seed": rng.randrange(1 << 30), "xor": rng.random() < 0.4})
+    # more than 32 classical bits: measurements into bits 32..62 (one wide register, registers straddling bit 32, a second
+    # register above it) and conditions on registers wider than 32 bits whose high bits are set
+    X = lambda i: ("apply", "x", [("q", "q", i)], [])
+    M = lambda qi, reg, ci: ("measure", ("q", "q", qi), ("q", reg, ci))
+    wide = [
+        [("qreg", "q", 2), ("creg", "lo", 32), ("creg", "hi", 4), X(0), M(0, "hi", 1), M(0, "lo", 31), ("if", "hi", 2, X(1)), M(1, "hi", 3)],
+        [("qreg", "q", 2), ("creg", "a", 30), ("creg", "b", 5), X(0), M(0, "b", 0), M(0, "b", 4), ("if", "b", 17, X(1)), M(1, "a", 29)],
+        [("qreg", "q", 2), ("creg", "c", 33), X(0), M(0, "c", 32), ("if", "c", 0, X(1)), M(1, "c", 0)],
+        [("qreg", "q", 2), ("creg", "c", 34), X(0), M(0, "c", 33), M(0, "c", 0), ("if", "c", 1, X(1)), M(1, "c", 5)],
+        [("qreg", "q", 2), ("creg", "lo", 2), ("creg", "c", 40), X(0), M(0, "c", 39), M(0, "c", 1), ("if", "c", 2, X(1)), ("if", "lo", 0, X(0))],
+        [("qreg", "q", 3), ("creg", "c", 63), X(2), M(2, "c", 62), M(2, "c", 31), M(2, "c", 32), ("if", "c", 0, X(0)), M(0, "c", 1)],
+    ]
+    for w in wide:
+        for xor in (False, True):
+            cs.append({"chunks": [w], "seed": 11, "xor": xor})
     # a conditional directly after every kind of statement, at every register offset
     kinds = [("apply", "h", [("q", "q", 0)], []), ("measure", ("q", "q", 0), ("q", "c", 0)), ("reset", ("q", "q", 1)),
              ("barrier", ("r", "q")), ("if", "d", 0, ("apply", "x", [("q", "q", 0)], [])), None]
@@ -234,6 +266,13 @@ def c13_mutants(rng, nodes, lay):
                 ("DisallowedRegister", "a", 0)))
     out.append(("undeclared name inside a gate body", ins(pos(), ("gate", "gbad", ["a"], [], [("apply", "x", [("r", "b")], [])])),
                 ("UnknownReg", "b")))
+    # a formal *parameter* is not a qubit: its name in a qubit position is an undeclared register of the body
+    out.append(("parameter name used as a qubit inside a gate body",
+                ins(pos(), ("gate", "gbad", ["x"], ["a"], [("apply", "h", [("r", "a")], [])])), ("UnknownReg", "a")))
+    out.append(("parameter name used as a qubit inside a gate body (second argument, after a use as parameter)",
+                ins(pos(), ("gate", "gbad", ["x", "y"], ["a"], [("apply", "rx", [("r", "x")], [("var", "a")]),
+                                                                ("apply", "cx", [("r", "y"), ("r", "a")], [])])),
+                ("UnknownReg", "a")))
     # the same two rules at a later argument of a later statement of the body
     out.append(("indexing inside a gate body (second argument, second statement)",
                 ins(pos(), ("gate", "gbad", ["a", "b"], [], [("apply", "h", [("r", "a")], []),
@@ -629,6 +668,13 @@ def c12_strings(rng, tier):
         "qreg q[1]; creg c[1]; " + "if(c==0) " * 1000 + "x q[0];",
         "qreg q[10]; qft q; h q; qft q;", "qreg q[1]; \x00x q[0];", "qreg q[1]; x q[0]\x00;", "qreg q[1];\xff", "﻿qreg q[1];",
         "qreg q[1]; gate g(" + ",".join("p%d" % i for i in range(300)) + ") a { } ", "qreg q[1]; creg c[1]; measure q[0] -> c[0]; " * 200,
+    ]
+    adversarial += [
+        # a parameter name in a qubit position of a gate body, the gate then called (directly, nested, under if)
+        "qreg q[1]; gate g(a) x { h a; } g(0) q[0];",
+        "qreg q[2]; gate g(a) x, y { rx(a) x; cx y, a; } g(1) q[0], q[1];",
+        "qreg q[1]; creg c[1]; gate g(a) x { h a; } gate o x { g(1) x; } if (c==0) o q[0];",
+        "gate g(a, b) x { u3(a, b, a) x; z b; } qreg q[1]; g(1, 2) q[0];",
     ]
     adversarial += [
         # arity mismatches of user gates called from inside other user gates (too few / too many operands, parameters)
